@@ -56,14 +56,14 @@ Observable(e, q, d) == Locs(Find(Parse(QText[q], FALSE).v, DocNow(d), RegOfEnv(e
 \* an environment that already has 'f' registered and a query using it compiled (and the same for the
 \* module-level environment); the prefix is part of the history, so the replay performs it too.
 Prefix(e) == << [op |-> "register", e |-> e, b |-> "ct"], [op |-> "compile", e |-> e, q |-> "q2", resp |-> "ok"],
-                [op |-> "compile", e |-> e, q |-> "q3", resp |-> "ok"] >>
+                [op |-> "compile", e |-> e, q |-> "q7", resp |-> "ok"] >>
 Init == /\ docs = [d \in DIds |-> "base"]
         /\ \/ /\ env = [e \in Envs |-> [exists |-> e # "e2", f |-> "none"]]
               /\ handles = <<>>
               /\ hist = <<>>
            \/ \E e0 \in {"e1", "mod"} :
               /\ env = [e \in Envs |-> [exists |-> e # "e2", f |-> IF e = e0 THEN "ct" ELSE "none"]]
-              /\ handles = <<[e |-> e0, q |-> "q2"], [e |-> e0, q |-> "q3"]>>
+              /\ handles = <<[e |-> e0, q |-> "q2"], [e |-> e0, q |-> "q7"]>>
               /\ hist = Prefix(e0)
 
 Log(entry) == hist' = Append(hist, entry)
